@@ -365,6 +365,14 @@ pub fn block(name: &str, c: &AlphaCtx, out: &mut Vec<Op>) {
                 }
             }
         }
+        // deliberate logic errors (safety-only afterwards)
+        "wrong" => {
+            for &k in &ks {
+                for a in 0..3 {
+                    out.push(Op::new(OpK::RawInsertWrongHash, k, a));
+                }
+            }
+        }
         "clone" => {
             out.push(Op::k(OpK::CloneReplace));
             for s in 0..6 {
